@@ -7,6 +7,7 @@ package client
 
 import (
 	"bufio"
+	"encoding/json"
 	"errors"
 	"fmt"
 	"strings"
@@ -92,6 +93,31 @@ func verifSendCase(w *bufio.Writer, nparts int, evs []vtEv) {
 	}
 	var mu sync.Mutex
 	var reqs, fwds [][]int
+	hdrMismatch := 0
+	// what goes out on the wire is the header (EncodeHeader) followed by the parts' bytes (GetParts): the
+	// two must describe the same parts, on the first attempt and on every retry and recovery request
+	checkHeader := func(p sts.Payload) {
+		hdr, err := p.EncodeHeader()
+		if err != nil {
+			hdrMismatch++
+			return
+		}
+		var ents []struct {
+			N string `json:"n"`
+		}
+		if err := json.Unmarshal(hdr, &ents); err != nil {
+			hdrMismatch++
+			return
+		}
+		ids := vtIDs(p)
+		same := len(ents) == len(ids)
+		for i := 0; same && i < len(ents); i++ {
+			same = ents[i].N == fmt.Sprintf("p%d", ids[i])
+		}
+		if !same {
+			hdrMismatch++
+		}
+	}
 	pos := 0
 	next := func(kind string) (vtEv, bool) {
 		for pos < len(evs) && evs[pos].kind == "C" {
@@ -111,6 +137,7 @@ func verifSendCase(w *bufio.Writer, nparts int, evs []vtEv) {
 				mu.Lock()
 				defer mu.Unlock()
 				reqs = append(reqs, vtIDs(p))
+				checkHeader(p)
 				e, ok := next("X")
 				if !ok {
 					return len(p.GetParts()), nil // script exhausted: succeed
@@ -137,6 +164,7 @@ func verifSendCase(w *bufio.Writer, nparts int, evs []vtEv) {
 			TxRecoverer: func(p sts.Payload) (int, error) {
 				mu.Lock()
 				defer mu.Unlock()
+				checkHeader(p)
 				e, ok := next("R")
 				if !ok {
 					return 0, nil
@@ -178,6 +206,7 @@ func verifSendCase(w *bufio.Writer, nparts int, evs []vtEv) {
 			fmt.Fprintf(w, " %d", id)
 		}
 	}
+	fmt.Fprintf(w, " H %d", hdrMismatch)
 	fmt.Fprintln(w)
 }
 
